@@ -229,8 +229,8 @@ func checkEnc(scen string, in EncIn) []*mc.Violation {
 }
 
 func lineValues(maxLines int) []string {
-	lines := []string{"a", "", " ind", "b c", "\ttab", "#c", "k: v", "5% %s", "J\xf6rg"}
-	sym := []string{"0", "1", "2", "3", "4", "5", "6", "7", "8"}
+	lines := []string{"a", "", " ind", "b c", "\ttab", "#c", "k: v", "5% %s", "J\xf6rg", " ."}
+	sym := []string{"0", "1", "2", "3", "4", "5", "6", "7", "8", "9"}
 	for i, t := range gen.AuditStrings(gen.OneLine, 2) { // alphabet audit: lines made of literals a change introduced
 		if strings.TrimSpace(t) != "" && strings.TrimRight(t, " \t") == t && t != "." {
 			lines = append(lines, t)
@@ -246,7 +246,7 @@ func lineValues(maxLines int) []string {
 		var ls []string
 		for _, c := range s {
 			if c >= 'a' {
-				ls = append(ls, lines[9+int(c-'a')])
+				ls = append(ls, lines[10+int(c-'a')])
 			} else {
 				ls = append(ls, lines[c-'0'])
 			}
